@@ -271,11 +271,11 @@ def _reborrow_of_param(b, o, param):
     return False
 
 
-def crc_call_sites(ck, P):
+def crc_call_sites(ck, P, writers=('encap', 'encap_ext'), floor=8):
     f = ck.facts
     # ---- R5: what the encapsulator passes
     n5 = 0
-    for wname in ('encap', 'encap_ext'):
+    for wname in writers:
         w_ = analyse_writer(ck, ENC + wname, extra=c09.ENCCFG)
         env = writer_env(ck, w_, wname)
         for r in w_.events('call'):
@@ -305,5 +305,5 @@ def crc_call_sites(ck, P):
                     ck.discharged += 1
                 else:
                     ck.finding(P, ENC + wname, f"crc-total-length:{part_lt}", f"{wname} ({part_lt} label): CRC total length / label arguments are not (PDU + 2 + {L}, {L} label bytes)", r.site)
-    ck.rule('C12.R5 calculate_crc32 call sites of the encapsulator', n5, 8)
+    ck.rule(f'{P} calculate_crc32 call sites of the encapsulator', n5, floor)
 
